@@ -11,8 +11,9 @@ import (
 	"bytes"
 	"context"
 	"fmt"
-	"strings"
+	"io"
 	"net"
+	"strings"
 	"sync"
 	"time"
 
@@ -20,10 +21,10 @@ import (
 	"github.com/segmentio/kafka-go/protocol/apiversions"
 	"github.com/segmentio/kafka-go/protocol/describeconfigs"
 	"github.com/segmentio/kafka-go/protocol/describegroups"
-	"github.com/segmentio/kafka-go/protocol/listgroups"
 	"github.com/segmentio/kafka-go/protocol/fetch"
 	"github.com/segmentio/kafka-go/protocol/findcoordinator"
 	"github.com/segmentio/kafka-go/protocol/heartbeat"
+	"github.com/segmentio/kafka-go/protocol/listgroups"
 	"github.com/segmentio/kafka-go/protocol/listoffsets"
 	"github.com/segmentio/kafka-go/protocol/metadata"
 	"github.com/segmentio/kafka-go/protocol/produce"
@@ -47,19 +48,27 @@ type TBroker struct {
 	mu      sync.Mutex
 	conns   []*TConn
 	log     []Msg
+	stall   bool
 	cutKey  int16
 	cutNth  int // 1-based count over all connections; 0 = no cut
 	cutAt   int
 	seen    map[int16]int
 	lastLen map[int16]int // length of the last complete response frame per api key
 	seq     int
-	cutTs   int64 // timestamp field of the list-offsets request whose response was cut (0 if none / other api)
+	cutTs   int64           // timestamp field of the list-offsets request whose response was cut (0 if none / other api)
 	lens    map[int16][]int // lengths of all response frames per api key, in order of arrival
 }
 
 func NewTBroker(topic string) *TBroker {
 	return &TBroker{ID: 1, Topic: topic, FetchMax: 4, seen: map[int16]int{}, lastLen: map[int16]int{}, lens: map[int16][]int{},
 		MaxVer: map[int16]int16{0: 7, 1: 10, 2: 1, 3: 6, 10: 1, 12: 1, 15: 4, 16: 2, 18: 0, 32: 1}}
+}
+
+// SetStall: a cut response is followed by silence instead of a dropped connection.
+func (b *TBroker) SetStall(on bool) {
+	b.mu.Lock()
+	b.stall = on
+	b.mu.Unlock()
 }
 
 // Cut arms the fault: the response to the nth request (from now on) with this api key is cut after k bytes.
@@ -351,7 +360,13 @@ func (b *TBroker) serve(c net.Conn, j *TConn) {
 			c.Write(f[:k])
 			b.mu.Lock()
 			j.CutAt = k
+			stall := b.stall
 			b.mu.Unlock()
+			if stall {
+				// silent from here on (no FIN): only the client's deadline ends the exchange
+				c.SetReadDeadline(time.Now().Add(20 * time.Second))
+				io.Copy(io.Discard, c)
+			}
 			return // deferred Close: the connection is lost
 		}
 		if _, err := c.Write(f); err != nil {
@@ -368,12 +383,12 @@ type TCluster struct {
 	Parts   int
 	Topic   string
 
-	mu      sync.Mutex
-	cutKey  int16
-	cutNth  int
-	cutAt   int
-	seen    map[int16]int
-	CutOn   int32 // id of the broker whose response was cut (0: none)
+	mu     sync.Mutex
+	cutKey int16
+	cutNth int
+	cutAt  int
+	seen   map[int16]int
+	CutOn  int32 // id of the broker whose response was cut (0: none)
 }
 
 func NewTCluster(topic string, n, parts int) *TCluster {
